@@ -39,6 +39,7 @@ import (
 	"fmt"
 	"math/rand"
 	"os"
+	"os/exec"
 	"runtime"
 	"strconv"
 	"strings"
@@ -356,7 +357,78 @@ func c17ConcOnce(f []string, seed int64) string {
 	return sb.String()
 }
 
+// The cases run in a CHILD process (this test binary re-executed).  A data race reported by the race
+// detector or a fatal runtime error (concurrent map access, deadlock) makes the child exit non-zero and
+// would otherwise take every result of the run with it.  The parent then bisects the case list with further
+// children and prints "crash:<race|fatal|exit>" for exactly the cases that cannot run cleanly, so that all
+// other lines are still compared and the failing input is reported.
 func TestVerifC17(t *testing.T) {
+	if os.Getenv("VERIF_C17_CHILD") != "" {
+		c17Child(t)
+		return
+	}
+	data, err := os.ReadFile(os.Getenv("VERIF_CASES"))
+	if err != nil {
+		t.Fatal(err)
+	}
+	cases := strings.Split(strings.TrimRight(string(data), "\n"), "\n")
+	outPath := os.Getenv("VERIF_OUT")
+	runs := 0
+	runChild := func(lines []string) ([]string, string) {
+		runs++
+		cf := fmt.Sprintf("%s.child%d.cases", outPath, runs)
+		of := fmt.Sprintf("%s.child%d.out", outPath, runs)
+		defer os.Remove(cf)
+		defer os.Remove(of)
+		if err := os.WriteFile(cf, []byte(strings.Join(lines, "\n")+"\n"), 0o644); err != nil {
+			return nil, "exit"
+		}
+		cmd := exec.Command(os.Args[0], "-test.run=^TestVerifC17$", "-test.count=1", "-test.timeout=550s")
+		cmd.Env = append(os.Environ(), "VERIF_C17_CHILD=1", "VERIF_CASES="+cf, "VERIF_OUT="+of)
+		log, err := cmd.CombinedOutput()
+		if err == nil {
+			if b, e := os.ReadFile(of); e == nil {
+				got := strings.Split(strings.TrimRight(string(b), "\n"), "\n")
+				if len(got) == len(lines) {
+					return got, ""
+				}
+			}
+			return nil, "exit"
+		}
+		switch {
+		case strings.Contains(string(log), "DATA RACE"):
+			return nil, "race"
+		case strings.Contains(string(log), "fatal error"):
+			return nil, "fatal"
+		}
+		return nil, "exit"
+	}
+	var solve func(lines []string) []string
+	solve = func(lines []string) []string {
+		if runs >= 80 {
+			r := make([]string, len(lines))
+			for i := range r {
+				r[i] = "crash-unresolved"
+			}
+			return r
+		}
+		got, why := runChild(lines)
+		if got != nil {
+			return got
+		}
+		if len(lines) == 1 {
+			return []string{"crash:" + why}
+		}
+		h := len(lines) / 2
+		return append(solve(lines[:h]), solve(lines[h:])...)
+	}
+	res := solve(cases)
+	if err := os.WriteFile(outPath, []byte(strings.Join(res, "\n")+"\n"), 0o644); err != nil {
+		t.Fatal(err)
+	}
+}
+
+func c17Child(t *testing.T) {
 	in, err := os.Open(os.Getenv("VERIF_CASES"))
 	if err != nil {
 		t.Fatal(err)
